@@ -815,3 +815,130 @@ def worker_unit(prop):
                 loops={'While#1': LoopSpec(inv, modifies=[('heap_at', STATE, 'bytes_reused', ['state'])], name='While#1',
                                            types={'chunk': Ref(CHUNK), 'exists': BOOL, 'length': INT, 'slot': INT})},
                 prop=prop)
+
+
+# ------------------------------------------------------------------ the tail of snapshot(): assembling and uploading
+import ast as _ast
+from specs import loc as _loc
+from specs.snapbody import JV
+
+
+def tail_start(stmt):
+    return (isinstance(stmt, _ast.Assign) and isinstance(stmt.targets[0], _ast.Name) and stmt.targets[0].id == 'now')
+
+
+def tail_setup(b):
+    me = shared.repo_self(b, cache=False)
+    b.me = me
+    state = b.ref('state', STATE)
+    b.ref('chunks_table', TABLE)
+    b.ref('snapshot_files', SNAPFILES)
+    b.sym('note', Opt(STR))
+    NOW = models.opaque_type('DateTime')
+    b.bind('datetime', Obj('datetime', utcnow=Model('utcnow', lambda i, s, a, k: iter([(s, sym.fresh(NOW, 'now'))]))))
+
+    def str_(interp, st, args, kwargs):
+        (v,) = args
+        if isinstance(v, SV) and v.ty == NOW:
+            yield st, SV(STR, UF('str_of_datetime', NOW, STR)(v.z))
+        else:
+            yield from models.BUILTINS['str'].fn(interp, st, args, kwargs)
+
+    b.bind('str', Model('str', str_))
+
+    def list_(interp, st, args, kwargs):
+        (v,) = args
+        v = ops.resolve(st, v)
+        if isinstance(v, SV) and v.ty == Ref(TABLE):
+            st.emit('list_of_table', table=v)
+            yield st, SV(JV, UF('jv_table_keys', INT, JV)(v.z))
+        elif isinstance(v, DictValues):
+            st.emit('list_of_values', d=v.d)
+            yield st, SV(JV, UF('jv_dict_values', INT, JV)(v.d.z))
+        else:
+            yield from models.BUILTINS['list'].fn(interp, st, args, kwargs)
+
+    class DictValues:
+        def __init__(self, d):
+            self.d = d
+
+    b.bind('list', Model('list', list_))
+    SNAPFILES.methods = {'values': lambda interp, st, recv, args, kwargs: iter([(st, DictValues(recv))])}
+
+    def encrypt_body(interp, st, args, kwargs):
+        body = ops.resolve(st, args[0])
+        d = interp.deref(st, body)
+        data = interp.deref(st, ops.resolve(st, d['data'])) if not isinstance(d['data'], SV) else d['data']
+        r = sym.fresh(BYTES, 'stored_snapshot')
+        st.emit('encrypt_snapshot_body', chunks=d['chunks'], data=data, keys=sorted(d), result=r)
+        yield st, r
+
+    def parts(interp, st, args, kwargs):
+        view = shared.PropsView(st, me.props)
+        z = sym.lift(args[0], BYTES).z
+        st.emit('snapshot_parts', digest=args[0])
+        yield st, shared.make_ntup(('name', 'tag'), (SV(STR, _loc.hexf(z)),
+                                                    SV(STR, z3.If(view.encrypted, _loc.hexf(view.mac(z)), _loc.hexf(z)))))
+
+    def getloc(interp, st, args, kwargs):
+        yield st, SV(STR, _loc.snapshot_path_spec(sym.lift(kwargs['name'], STR).z, sym.lift(kwargs['tag'], STR).z))
+
+    def upload(interp, st, args, kwargs):
+        bad = st.copy()
+        yield bad, Raised(Exc('AnyError'))
+        st.emit('upload', location=args[0], data=args[1])
+        yield st, None
+
+    me._attrs.update({
+        '_encrypt_snapshot_body': Model('_encrypt_snapshot_body', encrypt_body),
+        '_snapshot_digest_to_location_parts': Model('parts', parts),
+        'get_snapshot_location': Model('get_snapshot_location', getloc),
+        '_upload_data': Model('_upload_data', upload),
+        'default_serialization_hook': Obj('hook'),
+    })
+    b.bind('json', Obj('json', dumps=Model('dumps', lambda i, s, a, k: iter([(s, 'json')]))))
+    b.bind('utils', Obj('utils', DefaultNamespace=Model('DefaultNamespace', lambda i, s, a, k: iter([(s, s.new_py('dict', dict(k)))])),
+                        bytes_to_human=Model('bytes_to_human', lambda i, s, a, k: iter([(s, 'n')]))))
+
+
+def tail_post(prop):
+    def post(res):
+        b = res.builder
+        n = 0
+        for p in res.paths:
+            view = shared.PropsView(p.st, b.me.props)
+            ups = p.events('upload')
+            eb = p.events('encrypt_snapshot_body')
+            sig = p.kind + f'/up{len(ups)}'
+            for e in ups:
+                n += 1
+                pc = p.pc_at(e)
+                ok = len(eb) == 1 and len(ups) == 1
+                res.oblige(pc, f'{prop}.tail.single_upload_of_the_encoded_body[{sig}]', z3.BoolVal(ok))
+                if not ok:
+                    continue
+                stored = eb[0].data['result'].z
+                d = H()(stored)
+                # C14.snapshot.name_tag_path / C05.sink.snapshot: name = hex(H(stored bytes)), tag = hex(MAC(H)) | hex(H)
+                res.oblige(pc, f'{prop}.tail.upload_is_stored_body_at_documented_location[{sig}]', z3.And(
+                    sym.lift(e.data['data'], BYTES).z == stored,
+                    sym.lift(e.data['location'], STR).z == _loc.snapshot_path_spec(
+                        _loc.hexf(d), z3.If(view.encrypted, _loc.hexf(view.mac(d)), _loc.hexf(d)))))
+                # C14.snapshot.shape: body = {chunks: list(chunks_table), data: {utc_timestamp, files, note?}}
+                x = eb[0]
+                data = x.data['data']
+                keys = sorted(data) if isinstance(data, dict) else None
+                note = b.st.lookup('note')
+                res.oblige(pc, f'{prop}.tail.body_shape[{sig}]', z3.And(
+                    z3.BoolVal(x.data['keys'] == ['chunks', 'data']),
+                    z3.BoolVal(keys in (['files', 'utc_timestamp'], ['files', 'note', 'utc_timestamp'])),
+                    z3.BoolVal(keys is not None and 'note' in keys) == z3.Not(note.ty.is_none(note.z)),
+                    z3.BoolVal(bool(p.events('list_of_table')) and bool(p.events('list_of_values')))))
+            if p.kind == 'raise':
+                res.oblige(p, f'{prop}.tail.failure_uploads_nothing[{sig}]', z3.BoolVal(not ups))
+        res.oblige([], f'{prop}.tail.upload_sites_checked', z3.BoolVal(n >= 1))
+    return post
+
+
+def tail_unit(prop):
+    return Unit(f'{prop}.snapshot_tail', REPO_PY, 'Repository.snapshot', tail_setup, tail_post(prop), stmt=tail_start, prop=prop)
